@@ -192,6 +192,17 @@ def tok_octet(e: Any, k: Any) -> Any:
     return (e.value // (256 ** (e.width - 1 - k))) % 256
 
 
+def is_symbolic(x: Any) -> bool:
+    import sys
+
+    if 'crosshair.core' not in sys.modules:
+        return False
+    from crosshair.tracers import NoTracing
+
+    with NoTracing():
+        return hasattr(x, 'var')
+
+
 def concretize(x: Any) -> Any:
     """Fork on the value of a symbolic integer (no-op for concrete values / in native replay)."""
     import sys
@@ -304,6 +315,8 @@ class SymPacket:
             while pos < b:
                 octs.append(self[pos])
                 pos = pos + 1
+            if not any(is_symbolic(o) for o in octs):
+                return bytes(octs)  # a concrete stretch (e.g. the labels of a fixed question) decodes to real text
             return SymOctets(octs)
         while pos < b:
             i, k = self._locate(pos)
